@@ -65,6 +65,7 @@ class Exec:
         # reference accumulator: fn -> None | {"prev": {dev: {f: raw}}, "rem": {dev: {f: n}}}
         self.ref = {"net": None, "disk": None}
         self.hidden_by_totals = set()
+        self.nfail = 0
         self.last = {"net": {}, "disk": {}}      # last nowrap=True value returned per (dev, field)
         w.mkdir("/sys/block/sda")
         self.viols = []
@@ -120,6 +121,8 @@ class Exec:
             for plug in devs[1:]:
                 ev.append(["unplug", fn, plug] if self.present[fn][plug] else ["plug", fn, plug])
             ev.append(["clear", fn])
+            if fn == "net" and self.nfail < 1:
+                ev.append(["failcall", fn])
         return ev
 
     def viol(self, cause, msg):
@@ -161,6 +164,16 @@ class Exec:
                 self.viol("cache_clear-raised", repr(out))
             self.ref[fn] = None
             self.last[fn] = {}
+        elif k == "failcall":
+            # ONE call that fails at the source (the table cannot be opened: ENOENT for an instant, e.g. during a remount): the
+            # caller gets an error, and the history kept for the calls that follow is what it was
+            self.nfail += 1
+            self.w.remove("/proc/net/dev")
+            try:
+                out = outcome(ps.net_io_counters, pernic=True)
+            finally:
+                self.sync()
+            lab = "failcall:%s" % (out[1] if out[0] == "exc" else "ok")
         elif k == "call":
             lab = self.do_call(ev[1], ev[2], ev[3])
         self.label = lab
@@ -254,7 +267,7 @@ class Exec:
     def canon(self):
         wn = self.ps._common._wn
         c = self.cfg
-        key = {"raw": {}, "present": {}, "ref": {}, "wn": {}, "last": {}, "hid": sorted(self.hidden_by_totals)}
+        key = {"raw": {}, "present": {}, "ref": {}, "wn": {}, "last": {}, "hid": sorted(self.hidden_by_totals), "nfail": self.nfail}
         for fn in self.fns():
             ctrs = c.net_ctrs if fn == "net" else c.disk_ctrs
             key["raw"][fn] = {d: [self.raw[fn][d][f] for f in ctrs] for d in self.raw[fn]}
